@@ -165,6 +165,11 @@ Create ==
              \/ /\ "memo" \in RecipeKinds /\ Len(st.memos) >= 1
                 /\ LET rc == [r |-> "memo", m |-> 1] IN
                    Do([a |-> "bind", in |-> l, recipe |-> rc], ApiBind(st, l, rc))
+             \/ /\ "boom" \in RecipeKinds     \* a bind closure that panics on BoomVal (C13 crash point)
+                /\ \E x \in IntNodes :
+                     \E rc \in {[r |-> "boom", then |-> [r |-> "const"]],
+                                [r |-> "boom", then |-> [r |-> "map", f |-> "add", over |-> x]]} :
+                     Do([a |-> "bind", in |-> l, recipe |-> rc], ApiBind(st, l, rc))
              \/ /\ "const" \in RecipeKinds
                 /\ LET rc == [r |-> "const"] IN
                    Do([a |-> "bind", in |-> l, recipe |-> rc], ApiBind(st, l, rc))
@@ -215,6 +220,11 @@ Write ==
               x # st.cell[v] /\
               Do([a |-> "write", n |-> v, op |-> op, x |-> x], VarWrite(st, v, op, x))
        ELSE Do([a |-> "write", n |-> v, op |-> op, x |-> NoVal], VarWrite(st, v, op, NoVal))
+\* arm the observability callback of an expert node (C13 crash point during observer linking)
+XArm ==
+  /\ Quiet /\ Budget /\ "xarm" \in Effs
+  /\ \E e \in {n \in Nodes : st.def[n].k = "expert" /\ n \notin st.armed} :
+       Do([a |-> "xarm", n |-> e], ApiXArm(st, e))
 Observe ==
   /\ Quiet /\ Budget /\ st.no < MaxObs
   /\ \E n \in Visible : Do([a |-> "observe", n |-> n], ApiObserve(st, n))
@@ -375,7 +385,7 @@ BeginPoisoned ==
   /\ UNCHANGED <<coneB, noops>>
 
 Init == /\ st = InitState(MaxH) /\ hist = <<>> /\ coneB = {} /\ acts = 0 /\ noops = NoNoop
-Next == Scripted \/ Create \/ CloneObs \/ SetMaxH \/ DropHandle \/ Write \/ SubscribeA \/ UnsubscribeA \/ Observe \/ ObserveLeaked \/ DropObs \/ Disallow
+Next == Scripted \/ Create \/ CloneObs \/ SetMaxH \/ DropHandle \/ Write \/ SubscribeA \/ UnsubscribeA \/ Observe \/ ObserveLeaked \/ DropObs \/ Disallow \/ XArm
         \/ Begin \/ Step \/ EndA \/ HandlersStep \/ Finish \/ RecoverA \/ BeginPoisoned
 Spec == Init /\ [][Next]_vars
 \* counters and the round number never influence behaviour: keep them out of the fingerprint
@@ -472,6 +482,15 @@ ProgSubs == <<[a |-> "var", v |-> I(0)], [a |-> "observe", n |-> 1],
 \* a subscription whose handler panics, next to a map whose function panics at its 2nd run (K = 2)
 ProgPanic == <<[a |-> "var", v |-> I(0)], [a |-> "map", f |-> "id", in |-> 1, eff |-> <<[e |-> "panic", at |-> 2]>>],
                [a |-> "observe", n |-> 1], [a |-> "subscribe", o |-> 1, eff |-> <<[e |-> "panic", at |-> 0]>>]>>
+
+\* crash points other than node functions (C13): a bind whose closure panics on BoomVal, a node with a
+\* panicking cutoff function below an observed dependant, an expert node whose observability
+\* callback is armed while another observed node has pending changes (K = 2)
+ProgBoom == <<[a |-> "var", v |-> I(0)], [a |-> "map", f |-> "id", in |-> 1, eff |-> <<>>],
+              [a |-> "cutoff", n |-> 2, c |-> "boom"], [a |-> "map", f |-> "inc", in |-> 2, eff |-> <<>>],
+              [a |-> "bind", in |-> 1, recipe |-> [r |-> "boom", then |-> [r |-> "map", f |-> "add", over |-> 3]]]>>
+ProgXArm == <<[a |-> "var", v |-> I(0)], [a |-> "map", f |-> "inc", in |-> 1, eff |-> <<>>],
+              [a |-> "xcell", in |-> 1], [a |-> "map2", f |-> "add", in |-> <<3, 1>>]>>
 
 \* compact view of a state for counterexamples
 Alias == [status |-> st.status, panic |-> st.panic, num |-> st.num, chain |-> st.chain,
